@@ -194,6 +194,13 @@ def getKV {α} (a : List (String × α)) (k : String) : Option α :=
 /-- `{**a, **b}` -/
 def merge {α} (a b : List (String × α)) : List (String × α) := b.foldl (fun acc p => setKV acc p.1 p.2) a
 
+/-- the keyword dictionary `_from_variable` builds: name and range of the Variable, then the general defaults, then the
+    variable's defaults, then the caller's keyword arguments (later entries win) -/
+def paramsOf {α} (name range : α) (general varSettings kwargs : List (String × α)) : List (String × α) :=
+  merge (merge (merge [("variable", name), ("reasonable_physical_range", range)] general) varSettings) kwargs
+
+def hasKey {α} (a : List (String × α)) (k : String) : Bool := a.any (fun p => p.1 == k)
+
 /-! ### attrs fields, validators, converters -/
 
 inductive Validator
@@ -273,6 +280,21 @@ def checkField (f : Field) (x : Val) : Except String Val :=
   | .ok y => match firstFailure f.validators y with
       | some e => .error e
       | none => .ok y
+
+/-- attrs `__init__`: convert + validate every field, in field order (`args` lists the value of every field, defaults
+    filled in); the first failure is the exception raised -/
+def validateAll : List Field → List (String × Val) → Except String (List (String × Val))
+  | [], _ => .ok []
+  | f :: fs, args =>
+      match getKV args f.name with
+      | none => .error "TypeError"
+      | some x =>
+        match checkField f x with
+        | .error e => .error e
+        | .ok y =>
+          match validateAll fs args with
+          | .error e => .error e
+          | .ok r => .ok ((f.name, y) :: r)
 
 def rw3 : List Field := [
   ⟨"running_window_mode", some "False", [.instBool], ""⟩,
@@ -506,6 +528,27 @@ def applyView (rs : List Rule) (rederive : Bool) (i : Inst) : Except String View
     | .ok j => view rs j
   else view rs i
 
+/-- what a user does to an instance between construction and the last `apply` -/
+inductive Op | assign (k : String) (v : Val) | apply
+  deriving DecidableEq, Repr
+
+/-- `apply` re-derives *in place* (the instance keeps the rebuilt attributes); an assignment changes one field -/
+def stepOp (rs : List Rule) (i : Inst) : Op → Except String Inst
+  | .assign k v => .ok (assign i k v)
+  | .apply => derive rs i
+
+def runOps (rs : List Rule) : Inst → List Op → Except String Inst
+  | i, [] => .ok i
+  | i, o :: os => match stepOp rs i o with
+      | .error e => .error e
+      | .ok j => runOps rs j os
+
+/-- the fields after a history: only the assignments matter -/
+def fieldsAfter : List (String × Val) → List Op → List (String × Val)
+  | f, [] => f
+  | f, .assign k v :: os => fieldsAfter (setKV f k v) os
+  | f, .apply :: os => fieldsAfter f os
+
 /-- sequencing: construction may fail -/
 def andThen {β} (c : Except String Inst) (g : Inst → Except String β) : Except String β :=
   match c with
@@ -549,5 +592,11 @@ def hasThreshold (lb lt ub ut : ExtRat) : Bool := hasUpperThreshold lb lt ub ut 
 
 /-- the four bound attributes of an ISIMIP instance built without bounds -/
 def boundOf (tbl : List (String × ExtRat)) (k : String) : Option ExtRat := lookupS k tbl
+
+/-- full construction: attrs validation of every field, then `__attrs_post_init__` -/
+def constructChecked (d : Deb) (args : List (String × Val)) : Except String Inst :=
+  match validateAll (fieldsOf d) args with
+  | .error e => .error e
+  | .ok a => derive (rulesOf d) ⟨a, noExtra⟩
 
 end Model.Config
